@@ -92,7 +92,15 @@ fn cite_program(rng: &mut Rng) -> CiteCase {
     items.push(Item::Label("start".into()));
     let n = 2 + rng.below(9);
     for _ in 0..n {
-        match rng.below(12) {
+        match rng.below(14) {
+            // the program switches single-stepping on and off by itself (trap flag through POPF): the messages after a
+            // stepped stretch must cite their own lines again
+            12 | 13 => {
+                let on = rng.chance(1, 2);
+                items.push(Item::Ins(Ins::Mov(Loc::R16(R16::AX), Src::Imm(if on { 0x0100 } else { 0 }))));
+                items.push(Item::Ins(Ins::Push(Loc::R16(R16::AX))));
+                items.push(Item::Ins(Ins::Simple("popf")));
+            }
             0 | 1 => items.push(Item::Ins(Ins::Print(match rng.below(4) {
                 0 => PrintCmd::Reg,
                 1 => PrintCmd::Flags,
@@ -242,13 +250,13 @@ fn check_messages(rep: &Report, c: &CiteCase, rng: &mut Rng, core: Option<usize>
         r.text = crlf(&r.text);
     }
     let interpreted = rng.chance(1, 3);
-    let stdin = b"n\n".repeat(400);
+    let stdin = b"n\n".repeat(2000);
     let out = run_cli(r.text.as_bytes(), &CliOpts { interpreted, stdin: &stdin, env: vec![("VERIF_NOMEM", "1")], ..Default::default() });
     rep.eval(1);
     let p = parse_records(&out.stdout);
     let wit = |detail: &str| {
         format!(
-            "{{\"kind\": \"cli\", \"interpreted_flag\": {}, \"source\": {}, \"stdin\": \"n\\n x400\", \"detail\": {}, \"status\": {}}}",
+            "{{\"kind\": \"cli\", \"interpreted_flag\": {}, \"source\": {}, \"stdin\": \"n\\n x2000\", \"detail\": {}, \"status\": {}}}",
             interpreted,
             json_str(&r.text),
             json_str(detail),
@@ -291,7 +299,9 @@ fn check_messages(rep: &Report, c: &CiteCase, rng: &mut Rng, core: Option<usize>
         let last_line = line == r.text.trim_end_matches('\n').split('\n').count();
         // every message kind that must appear after this record
         let mut expect: Vec<(&str, &str)> = Vec::new(); // (kind, marker)
-        if interpreted {
+        // stepping is active for this instruction when -i was given or the trap flag is set in its record
+        let stepping = interpreted || rec.tf;
+        if stepping {
             expect.push(("about-to-execute", "About to execute line"));
         }
         if rec.line.starts_with("print") {
@@ -319,7 +329,7 @@ fn check_messages(rep: &Report, c: &CiteCase, rng: &mut Rng, core: Option<usize>
             let region: Option<String> = match kind {
                 "about-to-execute" => if pieces.len() >= 2 { Some(pieces[0].to_string()) } else { None },
                 "int3" => {
-                    let k = if interpreted { 1 } else { 0 };
+                    let k = if stepping { 1 } else { 0 };
                     if pieces.len() >= k + 2 { Some(pieces[k].to_string()) } else { None }
                 }
                 _ => tail.lines().find(|l| !l.trim().is_empty()).map(|l| l.to_string()),
